@@ -3,7 +3,7 @@ import common
 import linen_prog as LP
 from common import cN, cZ, cnat, cbool, clist, copt, cpair
 
-PROOF_FILES = ['Proofs/Linen.v']
+PROOF_FILES = ['Proofs/Linen.v', 'Proofs/LinenInit.v', 'Proofs/LinenSow.v']
 ASSUMPTIONS = [
     'module programs are compact-style trees of modules (params, variables, put_variable, sow, perturb, make_rng, sub-modules created inline, instances called repeatedly, '
     'classes instantiated several times); setup-style modules, bind/unbind and methods other than __call__ are not in the program grammar (reported as uncovered)',
